@@ -146,3 +146,13 @@ Example c41_nonvacuous :
   /\ save_bytes 2 = [123; 34; 107; 105; 110; 100; 34; 58; 34; 115; 101; 113; 117; 101; 110; 116; 105; 97; 108; 34; 44;
                      34; 110; 101; 120; 116; 95; 105; 100; 34; 58; 50; 125; 10].
 Proof. split; vm_compute; reflexivity. Qed.
+
+(** The predicate evaluated on the implementation's observed results
+    ([Exec.holds_on]) is implied by exact agreement with the model
+    ([Exec.check_case]) for scripts that stay inside the property's range
+    ([Exec.wf_case]: no explicit counter value within the script's length of 2^64-1). *)
+From Akita Require Import C41.Exec C41.Link.
+Theorem c41_model_agreement_implies_property : forall c,
+  wf_case c = true -> check_case c = true -> holds_on c = true.
+Proof. exact check_implies_holds. Qed.
+Print Assumptions c41_model_agreement_implies_property.
